@@ -6,10 +6,10 @@ func init() {
 	register(&Prop{
 		ID: "C01",
 		Explanation: "Concentrated-liquidity solvency, structural clauses: every place where a token amount crosses the pool boundary is rounded in the pool's favour (deposits and amounts charged with round-up operations only, withdrawals, amounts paid out, reward growth and claims with truncating operations only), " +
-			"and every transfer out of a pool, spread-reward or incentive account is of exactly the amount the bookkeeping just computed, to the position owner, from the matching account; the set of functions that send coins from pool-owned accounts is closed.",
+			"and every transfer out of a pool, spread-reward or incentive account is of exactly the amount the bookkeeping just computed, to the position owner, from the matching account; the set of functions that send coins from pool-owned accounts is closed. Round 8: a tick is reported empty (and deleted with its growth-outside snapshots) only when updated gross and net liquidity are both zero; every non-zero spread fee is collected.",
 		NotCovered:  []string{"that accumulated dust over a history covers every claim (magnitude argument over histories)", "lock-bound positions", "negative interval accumulator values"},
 		Assumptions: []string{"rounding classes of osmomath as proved by C12", "bank keeper SendCoins moves exactly the given coins or fails"},
-		MinObl:      92,
+		MinObl:      93,
 		Run:         runC01,
 	})
 }
